@@ -547,88 +547,105 @@ def rule_ta_repr(repo, col):
               '__ne__ is not the negation of __eq__')
 
 
-def _eq_steps(func):
-    """Sequence of (kind, detail) comparisons an equality method performs,
-    in order, each ending in a negative result."""
-    steps = []
-    for st in func.body:
-        if not isinstance(st, ast.If):
-            continue
-        t = st.test
-        neg = False
-        if isinstance(t, ast.UnaryOp) and isinstance(t.op, ast.Not):
-            t = t.operand
-            neg = True
-        src = unparse(t, 200)
-        if 'isinstance' in src:
-            steps.append(('class', src))
-        elif '.type' in src:
-            steps.append(('type', src.replace('!=', '==').replace(
-                ' ', '')))
-        elif 'array_equal' in src and 'ids' in src:
-            steps.append(('ids', src))
-        elif 'array_equal' in src and 'metadata' in src:
-            steps.append(('metadata', src))
-        elif '_data_equality' in src:
-            steps.append(('data', src))
-        else:
-            steps.append(('other', src))
-    return steps
+def _eq_facts(repo, func):
+    """What an equality method compares, wherever in its body (loops over
+    a constant tuple of axes are unrolled symbolically)."""
+    from .consteval import ConstEval, UNKNOWN
+    ce = ConstEval(repo)
+    facts = {'class': False, 'type': False, 'data': None,
+             'ids': set(), 'metadata': set(), 'unresolved': False}
+    # loop variables ranging over constant axis tuples
+    loopvals = {}
+    for n in ast.walk(func):
+        if isinstance(n, (ast.For, ast.comprehension)) and isinstance(
+                n.target, ast.Name):
+            v = ce.ev(n.iter, TABLE)
+            if v is not UNKNOWN and isinstance(v, (tuple, list)):
+                loopvals[n.target.id] = list(v)
+    for n in ast.walk(func):
+        if isinstance(n, ast.Call) and call_name(n) == 'isinstance':
+            facts['class'] = True
+        if isinstance(n, ast.Compare) and '.type' in unparse(n) and \
+                'self' in unparse(n) and 'other' in unparse(n):
+            facts['type'] = True
+        if isinstance(n, ast.Call) and isinstance(n.func, ast.Attribute) and \
+                n.func.attr == '_data_equality':
+            facts['data'] = n
+        if isinstance(n, ast.Call) and call_name(n) in ('np.array_equal',
+                                                        'array_equal') and \
+                len(n.args) == 2:
+            sides = []
+            for a in n.args:
+                if isinstance(a, ast.Call) and isinstance(
+                        a.func, ast.Attribute) and a.func.attr in (
+                        'ids', 'metadata') and isinstance(a.func.value,
+                                                          ast.Name):
+                    ax = kwarg(a, 'axis') or (a.args[-1] if a.args else None)
+                    if ax is None:
+                        axv = ['sample']
+                    elif const_str(ax):
+                        axv = [const_str(ax)]
+                    elif isinstance(ax, ast.Name) and ax.id in loopvals:
+                        axv = loopvals[ax.id]
+                    else:
+                        axv = None
+                    sides.append((a.func.value.id, a.func.attr, axv,
+                                  unparse(ax) if ax is not None else None))
+            if len(sides) == 2 and sides[0][1] == sides[1][1]:
+                kind = sides[0][1]
+                owners = {sides[0][0], sides[1][0]}
+                if owners != {'self', 'other'}:
+                    facts.setdefault('bad_operands', []).append(n)
+                    continue
+                if sides[0][2] is None or sides[1][2] is None:
+                    facts['unresolved'] = True
+                    continue
+                if sides[0][3] != sides[1][3] and sides[0][2] != sides[1][2]:
+                    facts.setdefault('axis_mismatch', []).append(n)
+                    continue
+                facts[kind] |= set(sides[0][2])
+    return facts
 
 
 def rule_sb_eq(repo, col):
-    """__eq__ and descriptive_equality apply the same comparisons to the
-    same operands: class, type, ids and metadata of both axes, data."""
+    """__eq__ and descriptive_equality compare class, type, ids and
+    metadata on both axes (self vs other on the same axis) and the data."""
     rule = 'SB-EQ'
-    a = _eq_steps(repo.func(TABLE, 'Table.__eq__'))
-    b = _eq_steps(repo.func(TABLE, 'Table.descriptive_equality'))
-    ka = [k for k, _ in a]
-    kb = [k for k, _ in b]
-    want = {'class': 1, 'type': 1, 'ids': 2, 'metadata': 2, 'data': 1}
-    for q, steps in (('Table.__eq__', a),
-                     ('Table.descriptive_equality', b)):
-        kinds = [k for k, _ in steps]
-        for k, cnt in want.items():
-            col.check(kinds.count(k) == cnt, rule, TABLE, q,
-                      'compares:%s' % k, None,
-                      '%d comparison(s) of %s' % (cnt, k),
-                      '%s makes %d comparison(s) of %s, expected %d: tables '
-                      'differing only in %s compare equal'
-                      % (q, kinds.count(k), k, cnt, k))
-        # both axes for ids and metadata
-        for k in ('ids', 'metadata'):
-            srcs = [s for kk, s in steps if kk == k]
-            obs = [s for s in srcs if "axis='observation'" in s]
-            col.check(len(srcs) == 2 and len(obs) == 1, rule, TABLE, q,
-                      'axes:%s' % k, None,
-                      '%s compared on both axes' % k,
-                      '%s is not compared once per axis' % k)
-            # self vs other with the same axis on both sides
-            for s in srcs:
-                n_self = s.count('self.')
-                n_other = s.count('other.')
-                col.check(n_self == 1 and n_other == 1 and
-                          s.count("axis='observation'") in (0, 2), rule,
-                          TABLE, q, 'operands:%s:%s' % (
-                              k, 'observation' if 'observation' in s
-                              else 'sample'), None,
-                          'self vs other on the same axis',
-                          'comparison %s does not compare self with other '
-                          'on the same axis' % s)
-    col.check(sorted(ka) == sorted(kb), rule, TABLE, 'Table.__eq__',
-              'siblings', None, 'both methods make the same comparisons',
-              '__eq__ makes %s, descriptive_equality makes %s' % (ka, kb))
-    # data comparison passes the other table's matrix
+    res = {}
     for q in ('Table.__eq__', 'Table.descriptive_equality'):
         f = repo.func(TABLE, q)
-        calls = [n for n in body_walk(f) if isinstance(n, ast.Call) and
-                 dotted(n.func) == 'self._data_equality']
-        ok = len(calls) == 1 and calls[0].args and \
-            dotted(calls[0].args[0]) in ('other._data', 'other.matrix_data')
-        col.check(ok, rule, TABLE, q, 'data-operand',
-                  calls[0] if calls else f, 'compares with other\'s matrix',
-                  '_data_equality is not given the other table\'s matrix')
-    # _data_equality: shape, then element-wise difference on a common format
+        fc = _eq_facts(repo, f)
+        res[q] = fc
+        for k in ('class', 'type'):
+            col.check(fc[k], rule, TABLE, q, 'compares:%s' % k, f,
+                      '%s compared' % k, '%s never compares the %s of the '
+                      'two tables: tables differing only in %s compare '
+                      'equal' % (q, k, k))
+        for k in ('ids', 'metadata'):
+            if fc['unresolved'] and fc[k] != {'sample', 'observation'}:
+                col.unknown(rule, TABLE, q, 'axes:%s' % k, f,
+                            'axis arguments not resolved')
+            else:
+                col.check(fc[k] == {'sample', 'observation'}, rule, TABLE, q,
+                          'axes:%s' % k, f, '%s compared on both axes' % k,
+                          '%s compares %s only on %s: tables differing in '
+                          'the other axis\' %s compare equal'
+                          % (q, k, sorted(fc[k]) or 'no axis', k))
+        for n in fc.get('bad_operands', []):
+            col.bad(rule, TABLE, q, 'operands', n, 'a comparison does not '
+                    'compare self with other')
+        for n in fc.get('axis_mismatch', []):
+            col.bad(rule, TABLE, q, 'operands-axis', n, 'self and other are '
+                    'compared on different axes')
+        c = fc['data']
+        ok = c is not None and c.args and dotted(c.args[0]) in (
+            'other._data', 'other.matrix_data') and \
+            dotted(c.func.value) == 'self'
+        col.check(bool(ok), rule, TABLE, q, 'data-operand', c or f,
+                  'the matrices are compared (self vs other._data)',
+                  '%s does not compare the matrix with the other table\'s '
+                  'matrix' % q)
+    # _data_equality: shape, then element-wise difference
     f = repo.func(TABLE, 'Table._data_equality')
     src = unparse(f, 10 ** 6)
     col.check('.shape' in src, rule, TABLE, 'Table._data_equality', 'shape',
@@ -636,9 +653,9 @@ def rule_sb_eq(repo, col):
     elementwise = any(isinstance(n, ast.Compare) and isinstance(
         n.ops[0], ast.NotEq) and _is_data_of(n.left) is not None
         for n in ast.walk(f))
-    col.check(elementwise, rule, TABLE, 'Table._data_equality',
-              'element-wise', f, 'element-wise (self._data != other) test',
-              'no element-wise comparison of the matrices')
+    col.soft(elementwise, rule, TABLE, 'Table._data_equality',
+             'element-wise', f, 'element-wise (self._data != other) test',
+             'element-wise comparison')
 
 
 RULE_TEXT = {
